@@ -13,6 +13,7 @@ directive lines starting with `//@`:
   //@   loop_start <n> / loop_end <n>   (text inserted as first / last statements of loop n's body)
   //@   closure <n> [params=<text up to `ret=` or end>] [ret=<text>]
   //@   before <anchor text>      /  //@ after <anchor text>   (+ following lines = inserted text)
+  //@       before#N / after#N / after_stmt#N address the N-th occurrence of a repeated anchor
   //@   after_stmt <anchor>       (after the `;` ending the statement that starts at anchor)
   //@   rewrite <old> ==> <new>
   //@   replace_range <start anchor> ... <stop anchor> ==> <new>   (both anchors inclusive)
@@ -82,6 +83,10 @@ def build(template_path, out_path, canary=False, repo=None, mutate=None):
                             break
                         op, _, arg = d.partition(" ")
                         arg = arg.strip().replace("\\n", "\n")
+                        nth = None
+                        if "#" in op:
+                            op, _, nn = op.partition("#")
+                            nth = int(nn)
                         if op == "ret":
                             cur = {"op": "ret", "name": arg, "text": ""}
                         elif op == "sig":
@@ -98,7 +103,7 @@ def build(template_path, out_path, canary=False, repo=None, mutate=None):
                             cur = {"op": "closure", "n": int(mm.group(1)), "params": mm.group(2),
                                    "ret": mm.group(3), "text": ""}
                         elif op in ("before", "after", "after_stmt"):
-                            cur = {"op": op, "anchor": arg, "text": ""}
+                            cur = {"op": op, "anchor": arg, "text": "", "nth": nth}
                         elif op == "tail":
                             nm, _, anc = arg.partition(" ")
                             cur = {"op": "tail", "name": nm, "anchor": anc.strip(), "text": ""}
